@@ -36,8 +36,14 @@ type State struct {
 	defers    []deferred
 	ghost     map[string]Value // named ghost variables
 	priv      []privCell       // variable cells of this activation that no other code can reach yet
+	privObjs  []privObj        // objects allocated by this activation that have not escaped yet (ghost state stays ours)
 	epoch     int              // >0: everything not yet materialised was havocked (unknown call) at this epoch
 	prefEpoch map[string]int   // heap-name prefix → epoch of the last Lock-havoc of that family
+}
+
+type privObj struct {
+	ref *Node
+	t   types.Type // pointer type
 }
 
 type privCell struct {
@@ -62,6 +68,7 @@ func (s *State) clone() *State {
 	n.held = append([]heldMutex(nil), s.held...)
 	n.defers = append([]deferred(nil), s.defers...)
 	n.priv = append([]privCell(nil), s.priv...)
+	n.privObjs = append([]privObj(nil), s.privObjs...)
 	if s.prefEpoch != nil {
 		n.prefEpoch = make(map[string]int, len(s.prefEpoch))
 		for k, v := range s.prefEpoch {
@@ -299,6 +306,45 @@ func (e *Exec) loadObj0(s *State, t types.Type, ref *Node, rootT types.Type, pre
 func (e *Exec) onLoad(s *State, heapName string, ref *Node, v *Node, li leafInfo) {
 	if !v.bound {
 		e.constrainLeaf(s, v, li.T, li.Sort)
+		return
+	}
+	if li.T != nil {
+		switch li.T.Underlying().(type) {
+		case *types.Pointer, *types.Map, *types.Chan:
+			// a pointer-like field read under a quantifier: every reference stored in a field is an
+			// allocated object (or nil); stated for the root constants of the heap term
+			e.assumeFieldRefsAllocated(s, s.heaps[heapName])
+		}
+	}
+}
+
+func (e *Exec) assumeFieldRefsAllocated(s *State, h *Node) {
+	if h == nil {
+		return
+	}
+	seen := map[int]bool{}
+	var roots []*Node
+	var rec func(n *Node)
+	rec = func(n *Node) {
+		if seen[n.id] {
+			return
+		}
+		seen[n.id] = true
+		switch {
+		case n.Op == "store" && len(n.Args) == 3:
+			rec(n.Args[0])
+		case n.Op == "ite" && len(n.Args) == 3:
+			rec(n.Args[1])
+			rec(n.Args[2])
+		case len(n.Args) == 0:
+			roots = append(roots, n)
+		}
+	}
+	rec(h)
+	for _, r := range roots {
+		o := BoundVar("o!wf", RefSort)
+		x := Select(r, o)
+		s.assume(Forall([]*Node{o}, And(App("<=", "Bool", IntLit(0), x), App("<", "Bool", x, e.allocTerm(s)))))
 	}
 }
 
@@ -670,6 +716,27 @@ func (e *Exec) mergeStates(ss []*State) *State {
 			}
 		}
 		out.priv = keep
+	}
+	{
+		var keep []privObj
+		for _, po := range out.privObjs {
+			all := true
+			for _, s := range live {
+				found := false
+				for _, q := range s.privObjs {
+					if q.ref == po.ref {
+						found = true
+					}
+				}
+				if !found {
+					all = false
+				}
+			}
+			if all {
+				keep = append(keep, po)
+			}
+		}
+		out.privObjs = keep
 	}
 	// held mutexes and defers must agree
 	for _, s := range live {
